@@ -150,8 +150,13 @@ fn run_case(case: &J) -> J {
                     }
                     x => panic!("mode {}", x),
                 }
+                // the tag may be given before or after the probe's code
+                let tag_first = op["tagfirst"] == true;
+                if tag_first && !tagb.is_empty() {
+                    it.append_to_tag(tagb.clone());
+                }
                 it.inject(wasmparser::Operator::Call { function_index: target });
-                if !tagb.is_empty() {
+                if !tag_first && !tagb.is_empty() {
                     it.append_to_tag(tagb.clone());
                 }
                 it.finish_instr();
